@@ -326,8 +326,11 @@ TEXT = {
                       "with completeness: exactly once. JSON: the writer is modelled statement by statement (index tests for the node separators, the "
                       "wrote_any flag, the per-group `idx < len-1` comma test - where D5 lived) and proved to emit exactly the document jsonDoc, two "
                       "arrays whose items are separated and never followed by commas, one item per node and one per right-going link, for every "
-                      "graph including empty, single-node and link-free ones (C20_json_writer_eq_document, C20_json_lists_every_node/_link). That "
-                      "jsonDoc parses and the serde round trips are "
+                      "graph including empty, single-node and link-free ones (C20_json_writer_eq_document, C20_json_lists_every_node/_link); "
+                      "C20_json_wellformed: that document is a JSON text - an inductive grammar (objects, arrays, strings with the standard "
+                      "escapes, integer literals without leading zeros, opaque values for payload renderings) accepts it for every graph and "
+                      "every rest object, its keys escaped as serde_json does (defect D8, found by this proof: keys were written unescaped; "
+                      "repaired). The serde round trips are "
                       "decided by execution: records re-read into port pairs and counted, the JSON parsed with serde_json and its counts compared "
                       "with the graph, round trips of k-mers / strings / Lmers / extension sets / graphs compared by equality and queries. Two "
                       "defects (D5 JSON trailing comma, D6 missing right hairpin) were found by this check and repaired in /repo.",
